@@ -140,6 +140,13 @@ class StmtMixin(object):
             st.assume(u.is_R(obj.z))
             obj = SV(obj.z, "ref", cls=obj.cls, elem=obj.elem)
         cls = obj.cls
+        if cls is None:
+            duck = self.duck_class(attr)
+            if duck is None:
+                raise Undecided("attribute store .%s on object of unknown class" % attr)
+            self.assumptions_used.add("A-duck: receiver of .%s is a %s" % (attr, duck))
+            obj = SV(obj.z, "ref", cls=duck, elem=obj.elem)
+            cls = duck
         if cls is not None and cls not in CONTAINER_CLASSES:
             owner, prop = self.src.lookup_property(cls, attr)
             if owner is not None:
@@ -366,7 +373,10 @@ class StmtMixin(object):
                     hs = remaining.copy()
                     hs.assume(cond)
                     if h.name:
-                        hs.env[h.name] = exc
+                        hcls = exc.cls
+                        if isinstance(h.type, ast.Name):
+                            hcls = h.type.id
+                        hs.env[h.name] = SV(exc.z, "ref", cls=hcls)
                     self.handling.append(exc)
                     try:
                         hend = self.exec_block(h.body, hs, pend)
@@ -481,8 +491,10 @@ class StmtMixin(object):
     def s_For(self, node, st, acc):
         if node.orelse:
             raise Undecided("for-else")
-        st, it = self.eval(node.iter, st, acc)
         ordn, spec = self.loop_spec(node)
+        if spec is not None and spec.broadcast:
+            return self.broadcast_loop(node, st, acc, ordn, spec)
+        st, it = self.eval(node.iter, st, acc)
         # literal tuples: unroll (complete, the bound is in the code)
         if it.kind == "pytuple":
             return self.unroll(node, st, acc, [x for x in it.py])
@@ -501,6 +513,79 @@ class StmtMixin(object):
             raise Undecided("unroll of symbolic sequence")
         elem_at, n = self.iteration_plan(st, acc, it, node)
         return self.run_loop(node, st, acc, ordn, spec, n, elem_at, cond_node=None)
+
+    def broadcast_loop(self, node, st, acc, ordn, spec):
+        """`for f in <formatters>: f.m(args)` (optionally through getattr(f, name, None) + truthiness
+        guard): every element of the list receives the same call.  Checked structurally on the
+        real loop body, then summarised by ONE application of the broadcast contract."""
+        if not isinstance(node.target, ast.Name):
+            raise Undecided("broadcast loop target")
+        var = node.target.id
+        it_text = ast.unparse(node.iter)
+        if it_text not in ("runner.formatters", "self.formatters", "self.config.reporters",
+                           "runner.config.reporters"):
+            raise Undecided("broadcast loop over %s" % it_text)
+        calls = []
+        aliases = set()
+        inside_args = set()
+        for sub in ast.walk(ast.Module(body=node.body, type_ignores=[])):
+            if isinstance(sub, ast.Call):
+                f0 = sub.func
+                if (isinstance(f0, ast.Attribute) and isinstance(f0.value, ast.Name) and f0.value.id == var) \
+                        or (isinstance(f0, ast.Name) and f0.id in aliases):
+                    for a in list(sub.args) + [k.value for k in sub.keywords]:
+                        for n3 in ast.walk(a):
+                            inside_args.add(id(n3))
+            if isinstance(sub, ast.Assign) and isinstance(sub.targets[0], ast.Name) \
+                    and isinstance(sub.value, ast.Call) and isinstance(sub.value.func, ast.Name) \
+                    and sub.value.func.id == "getattr":
+                aliases.add(sub.targets[0].id)
+        aliases_pre = set(aliases)
+        aliases = set()
+        for sub in ast.walk(ast.Module(body=node.body, type_ignores=[])):
+            if id(sub) in inside_args:
+                continue
+            if isinstance(sub, (ast.Return, ast.Break, ast.Continue, ast.Raise, ast.For, ast.While,
+                                ast.Try, ast.With, ast.AugAssign, ast.Delete)):
+                raise Undecided("broadcast loop body has control flow")
+            if isinstance(sub, ast.Assign):
+                ok = len(sub.targets) == 1 and isinstance(sub.targets[0], ast.Name) \
+                    and isinstance(sub.value, ast.Call) and isinstance(sub.value.func, ast.Name) \
+                    and sub.value.func.id == "getattr" and isinstance(sub.value.args[0], ast.Name) \
+                    and sub.value.args[0].id == var
+                if not ok:
+                    raise Undecided("broadcast loop body assigns something")
+                aliases.add(sub.targets[0].id)
+            if isinstance(sub, ast.Call):
+                f = sub.func
+                if isinstance(f, ast.Name) and f.id == "getattr":
+                    continue
+                if isinstance(f, ast.Attribute) and isinstance(f.value, ast.Name) and f.value.id == var:
+                    calls.append((f.attr, sub))
+                elif isinstance(f, ast.Name) and f.id in aliases_pre:
+                    calls.append(("<callback>", sub))
+                else:
+                    raise Undecided("broadcast loop body calls %s" % ast.unparse(f))
+            if isinstance(sub, ast.If):
+                if not (isinstance(sub.test, ast.Name) and sub.test.id in aliases_pre and not sub.orelse):
+                    raise Undecided("broadcast loop body has a condition")
+        if len(calls) != 1:
+            raise Undecided("broadcast loop body must contain exactly one call")
+        mname, call = calls[0]
+        cid, expect = spec.broadcast
+        if expect is not None and mname != expect:
+            raise Undecided("broadcast loop calls %s, contract expects %s" % (mname, expect))
+        for a in list(call.args) + [k.value for k in call.keywords]:
+            for n2 in ast.walk(a):
+                if isinstance(n2, ast.Name) and (n2.id == var or n2.id in aliases):
+                    raise Undecided("broadcast argument depends on the loop variable")
+        st, args, kwargs = self.eval_args(call, st, acc)
+        st, _ = self.apply_contract(st, acc, self.get_contract(cid), None, None, args, kwargs, node)
+        st.env.pop(var, None)
+        for a in aliases:
+            st.env.pop(a, None)
+        self.assumptions_used.add("A-fmt")
+        return st
 
     def unroll(self, node, st, acc, items):
         after = []
@@ -579,6 +664,14 @@ class StmtMixin(object):
         invs = spec.invariant if spec is not None else []
         is_for = cond_node is None
         pre = st.copy()
+        self.loop_entry_stack.append(pre)
+        try:
+            return self._run_loop(node, st, acc, ordn, spec, n, elem_at, cond_node, invs, is_for, pre)
+        finally:
+            self.loop_entry_stack.pop()
+
+    def _run_loop(self, node, st, acc, ordn, spec, n, elem_at, cond_node, invs, is_for, pre):
+        u = self.u
         seqv = getattr(self, "_last_seq", None) if is_for else None
 
         def inv_env(s, zi):
@@ -1009,21 +1102,30 @@ class StmtMixin(object):
         st, b = self.eval(node.args[1], st, acc)
         return st, self.mk_bool(self.truthy(a, st) == self.truthy(b, st))
 
-    def _quant(self, node, st, acc, is_forall):
+    def _quant(self, node, st, acc, is_forall, sort="int"):
         lam = node.args[0]
         if not isinstance(lam, ast.Lambda):
             raise Undecided("quantifier needs a lambda")
         names = [a.arg for a in lam.args.args]
-        zs = [self.u.fresh_int(n) for n in names]
+        if sort == "int":
+            zs = [self.u.fresh_int(n) for n in names]
+        else:
+            zs = [self.u.fresh_val(n) for n in names]
         tmp = st.copy()
         for n, z in zip(names, zs):
-            tmp.env[n] = self.mk_int(z)
+            tmp.env[n] = self.mk_int(z) if sort == "int" else SV(z)
         mark = len(tmp.pc)
         tmp, body = self.eval(lam.body, tmp, acc)
         t = self.truthy(body, tmp)
         # side facts (typing of what the body reads) are dropped: their polarity is unknown here
         q = z3.ForAll(zs, t) if is_forall else z3.Exists(zs, t)
         return st, self.mk_bool(q)
+
+    def spec_forall_val(self, node, st, acc):
+        return self._quant(node, st, acc, True, sort="val")
+
+    def spec_exists_val(self, node, st, acc):
+        return self._quant(node, st, acc, False, sort="val")
 
     def spec_forall(self, node, st, acc):
         return self._quant(node, st, acc, True)
@@ -1131,10 +1233,66 @@ class StmtMixin(object):
         f = self.u.uf(name, *([self.u.Val] * len(zs) + [self.u.Bool]))
         return st, self.mk_bool(f(*zs))
 
+    def spec_unchanged(self, node, st, acc):
+        """unchanged('field'): the field has its old value for every object."""
+        f = ast.literal_eval(node.args[0])
+        old = self.spec_old_state
+        if old is None:
+            raise Undecided("unchanged() without old state")
+        return st, self.mk_bool(self.heap_array(st, f) == self.heap_array(old[0], f))
+
+    def spec_unchanged_except(self, node, st, acc):
+        """unchanged_except('field', obj): every object other than obj keeps the field."""
+        u = self.u
+        f = ast.literal_eval(node.args[0])
+        old = self.spec_old_state
+        if old is None:
+            raise Undecided("unchanged_except() without old state")
+        st, obj = self.eval(node.args[1], st, acc)
+        r = u.fresh_int("r")
+        return st, self.mk_bool(z3.ForAll([r], z3.Or(u.R(r) == obj.z,
+                                                      self.heap_array(st, f)[r] == self.heap_array(old[0], f)[r])))
+
+    def spec_unchanged_outside(self, node, st, acc):
+        """unchanged_outside('field', seq): objects that are not elements of seq keep the field."""
+        u = self.u
+        f = ast.literal_eval(node.args[0])
+        old = self.spec_old_state
+        if old is None:
+            raise Undecided("unchanged_outside() without old state")
+        st, seq = self.eval(node.args[1], st, acc)
+        r = u.fresh_int("r")
+        k = u.fresh_int("k")
+        n = self.seq_len(old[0], seq)
+        el = self.seq_elems(old[0], seq)
+        member = z3.Exists([k], z3.And(0 <= k, k < n, el(k) == u.R(r)))
+        return st, self.mk_bool(z3.ForAll([r], z3.Or(member, self.heap_array(st, f)[r] == self.heap_array(old[0], f)[r])))
+
+    def spec_str_in(self, node, st, acc):
+        st, a = self.eval(node.args[0], st, acc)
+        st, b = self.eval(node.args[1], st, acc)
+        return st, self.mk_bool(self.contains(st, b, a, acc, node))
+
     def spec_str_startswith(self, node, st, acc):
         st, a = self.eval(node.args[0], st, acc)
         st, b = self.eval(node.args[1], st, acc)
         return self.str_method(st, acc, a, "startswith", [b], {}, node)
+
+    def spec_pre(self, node, st, acc):
+        """pre(e): value of e when the innermost enclosing loop was entered (loop invariants only)."""
+        if not self.loop_entry_stack:
+            raise Undecided("pre() outside a loop invariant")
+        es = self.loop_entry_stack[-1]
+        tmp = es.copy()
+        env = dict(es.env)
+        for k, v in st.env.items():
+            if k.startswith("_") or k not in env:
+                env[k] = v
+        tmp.env = env
+        _, v = self.eval(node.args[0], tmp, acc)
+        return st, v
+
+    loop_entry_stack = []
 
     def spec_ite(self, node, st, acc):
         st, c = self.eval(node.args[0], st, acc)
